@@ -104,6 +104,30 @@ def subharnesses(tier):
                                 restart_between=True)
                     subs.append(('%s-%s-then-%s-restart' % (
                         sname, ev[0] + str(ev[1]), ev2[0]), spec))
+    # a configuration change invalidates published placements: the allocation
+    # moves to another partition, or gains a trait the server does not offer
+    # (Cell._fix_invalid_placements takes the instance off; the record under
+    # the old server has to go as well)
+    ALLOC = {'name': 'proid/x', 'partition': 'p0', 'rank': 100,
+             'memory': '0G', 'cpu': '0%', 'disk': '0G',
+             'assignments': [{'pattern': 'proid.web*', 'priority': 50}]}
+    for recs in ([[0], [0]], [[0], []], [[0], [1]]):
+        for tag, servers, alloc1 in (
+                ('moves_partition',
+                 [{'partition': 'p0'}, {'partition': 'p1'}],
+                 dict(ALLOC, partition='p1')),
+                ('gains_trait',
+                 [{'partition': 'p0', 'traits': []},
+                  {'partition': 'p0', 'traits': ['ssd']}],
+                 dict(ALLOC, traits=['ssd']))):
+            if tag == 'moves_partition' and recs[1] == [1]:
+                continue
+            spec = {'apps': [{'recorded': r} for r in recs], 'nservers': 2,
+                    'servers': servers, 'traits': ['ssd'],
+                    'allocations': [dict(ALLOC)],
+                    'events': [['allocations', [alloc1]], ['none']]}
+            subs.append(('alloc-%s-%s' % (tag, ''.join(
+                str(len(r)) + (str(r[0]) if r else '') for r in recs)), spec))
     # an instance is unscheduled while an 'apps' event naming it is queued;
     # the master handles the event before (or after) the /scheduled watch
     stores = dict(_stores(tier))
